@@ -3,8 +3,8 @@
    constants and shape facts (gen/FurlGen.v) are re-translated from the source on every run. *)
 From Coq Require Import ZArith NArith List String.
 Import ListNotations.
-Require Import Verif.lib.PyLite Verif.lib.Regex Verif.lib.RegexProofs Verif.gen.FurlGen Verif.lib.Utf8 Verif.lib.Furl Verif.lib.FurlProofs.
-Require Import Verif.lib.Connector Verif.lib.ConnectorProofs.
+Require Import Verif.lib.PyLite Verif.lib.Regex Verif.lib.RegexProofs Verif.lib.FurlPrim Verif.gen.FurlGen Verif.lib.Utf8 Verif.lib.Furl Verif.lib.FurlProofs.
+Require Import Verif.lib.Connector Verif.lib.ConnectorProofs Verif.lib.ConnectAll Verif.lib.ConnectAllProofs.
 Local Open Scope Z_scope.
 
 (* "Parsing a FURL either yields (tub id, hints, name) ... or raises the documented bad-FURL error".
@@ -205,6 +205,36 @@ Theorem C20_furl_anchored_linear : forall meth s,
   (re_steps AUTH_STURDYREF_RE MMatch s <= furl_K * (N.of_nat (List.length s) + 1))%N.
 Proof. exact (fun meth s => conj (furl_anchored_linear meth s) (furl_match_linear s)). Qed.
 Print Assumptions C20_furl_anchored_linear.
+
+(* per-hint error containment (TubConnector.connectToAll with its callback chain, _connectionFailed, checkForFailure,
+   failed; model lib/ConnectAll.v), for ALL hint lists (duplicates included) and ALL behaviours of the individual
+   hints -- an endpoint that is dialled, an endpoint whose connect() fails at once, or get_endpoint failing with ANY
+   exception (InvalidHintError or the handler's own):
+   (1) every hint of the FURL is considered, whatever any hint does *)
+Theorem C20_every_hint_tried : forall beh hints h, In h hints -> In h (attempted (connect_all beh hints)).
+Proof. exact every_hint_tried. Qed.
+Print Assumptions C20_every_hint_tried.
+
+(* (2) a hint that yields a live endpoint is dialled -- no exception raised for another hint prevents it *)
+Theorem C20_usable_hint_dialled : forall beh hints h, In h hints -> beh h = HPending -> In h (pending (connect_all beh hints)).
+Proof. exact usable_hint_dialled. Qed.
+Print Assumptions C20_usable_hint_dialled.
+
+(* (3) ... and every hint ends with the status that its OWN outcome determines *)
+Theorem C20_hint_status_is_own : forall beh hints h, In h hints ->
+  status_of h (statuses (connect_all beh hints)) = Some (expected_status (beh h)).
+Proof. exact status_is_own. Qed.
+Print Assumptions C20_hint_status_is_own.
+
+(* (4) the connector neither stalls nor reports twice: either a connection attempt is running and nothing has been reported
+   (the connect timer bounds the wait: C20_no_stall), or failed() -- Tub.connectionFailed, which answers every waiting
+   getReference -- ran exactly once before connect() returned; `usable` (the flag of Connector.v's GetRef event) decides *)
+Theorem C20_connect_all_outcome : forall beh hints,
+  let r := connect_all beh hints in
+  (usable beh hints = true /\ pending r <> [] /\ active r = true /\ failed_calls r = 0%nat) \/
+  (usable beh hints = false /\ pending r = [] /\ active r = false /\ failed_calls r = 1%nat).
+Proof. exact connect_all_outcome. Qed.
+Print Assumptions C20_connect_all_outcome.
 
 (* "... so an untrusted FURL (for example one received as a gift) cannot stall ... the process": on a Tub whose peers never
    answer, after ANY history of getReference calls (FURLs with or without a usable hint, for any tub ids) and passage of
